@@ -1,5 +1,8 @@
 from vdriver import Group
 META = {'level': 'other'}
+import re
+
+
 def groups(tier):
     G = [Group('gf.tables', 'shamir', 'C10/gf.c', entry='h_tables', unwind=513, kind='constant-unwind', bound='table sizes 512/256',
                clause='exp/log tables are the powers/logs of 2 in GF(2^8)/0x11D'),
@@ -19,8 +22,14 @@ def groups(tier):
                 clause='split terminates (loop invariants + variants on all four loops) for every threshold and share count 0..255, '
                        'yields share_count shares, and raises invalid_argument exactly for t = 0, n = 0 or t > n')]
     U = {'crypto__build_exp_table': 513, 'crypto__build_log_table': 257}
-    G += [Group('combine.rejects.t<=3', 'shamir_b', 'C10/gf.c', entry='h_combine_rejects', defines=['T_MAX=3', 'SHAMIR_UNIT_B', 'CXX_VEC_CAP=8', 'CXX_FIXED_STORAGE'], unwind=34, unwind_by=U,
-                checks=['--bounds-check', '--pointer-check', '--div-by-zero-check'], kind='bounded', bound='threshold <= 3, at most 3 shares; indices and value byte 0 symbolic, value bytes 1..31 zero (byte positions are independent)', timeout=900, backend=['sat', 'cadical'], replay='combine',
+    for t in (1, 2, 3, 4):
+        G += [Group(f'combine.rejects.t={t}', 'shamir_b', 'C10/gf.c', entry='h_combine_rejects', defines=['T_MAX=4', f'T_FIX={t}', 'SHAMIR_UNIT_B', 'CXX_VEC_CAP=8', 'CXX_FIXED_STORAGE'],
+                stub=['crypto__gf_mul', 'crypto__gf_div'], unwind=34,
+                unwind_by=dict(U, **{'crypto__interpolate#1': 6, 'crypto__interpolate#2': 6, 'vec_crypto__ShamirShare_from_range': 6}),
+                checks=['--bounds-check', '--pointer-check', '--div-by-zero-check'], kind='bounded',
+                bound=f'threshold {t} (case split 1..4), at most 4 shares; indices and value byte 0 symbolic, value bytes 1..31 zero (byte positions are independent); gf_mul / gf_div replaced by their summary contracts '
+                      '(zero exactly for a zero operand; division raises exactly for a zero divisor), which groups gf.mul / gf.div establish for all operand pairs',
+                timeout=600, backend=['sat', 'cadical'], replay='combine',
                 clause='combine: fewer than t shares or a repeated index among the shares used => invalid_argument; nothing else escapes')]
     # (a threshold-2 reconstruction group was tried: the interpolation identity over the table-based field operations is not
     #  decided by the SAT back ends within 10 minutes even for one byte position; reconstruction stays an unchecked clause)
@@ -33,9 +42,21 @@ def replay(group, trace):
     root = os.path.dirname(os.path.dirname(os.path.abspath(__file__)))
     sys.path.insert(0, os.path.join(root, 'replay'))
     import replaylib as R
+    a = (trace or {}).get('assignments', {})
+    if group.replay == 'combine':
+        if 'in_n' not in a:
+            return None, 'counterexample has no share-set assignment'
+        m = re.search(r'T_FIX=(\d+)', ' '.join(group.defines))
+        t = int(m.group(1)) if m else R.num(a.get('in_t'))
+        n = min(R.num(a.get('in_n')), 4)
+        args = ['combine', t, n]
+        for k in range(n):
+            args += [R.num(a.get(f'in_i{k}', 0)), R.num(a.get(f'in_v{k}', 0))]
+        exe = R.build('C10.cpp', [])
+        rc, out = R.run(exe, args, timeout=30)
+        return rc == 1, out.strip()[-400:]
     if group.replay != 'split':
         return None, 'no native replay for this group'
-    a = (trace or {}).get('assignments', {})
     if 'in_t' not in a or 'in_n' not in a:
         return None, 'counterexample has no (threshold, share_count) assignment'
     t, n = R.num(a.get('in_t')), R.num(a.get('in_n'))
